@@ -5,6 +5,16 @@ HERE = os.path.dirname(os.path.dirname(os.path.abspath(__file__)))
 ALL = ['C%02d' % i for i in range(1, 21)]
 
 CLAIMED = {
+ 'C15': dict(
+    level='model_checking',
+    text='Data.tla holds the DATA tokenizer as a character automaton and the READ/RESTORE cursor machine with conversion rules; TLC '
+         'enumerates every DATA text up to the length bound (item lists compared with the implementation for all of them) and, per '
+         'DATA/label layout, every READ/RESTORE sequence up to the bound as a driver; each driver is compiled (3 placements of the '
+         'executed code relative to the DATA lines, 6 configurations) and run, every READ is observed on the operand stack, and the '
+         'recorded trace is validated by Trace_Data.tla clause by clause.',
+    note='Trusted: TLC, the tick observer reading the cell pushed by `io data,read`, numpy/python repr to identify a float; [amb] DATA texts only need not crash.',
+    technique='TLA+ tokenizer automaton + cursor machine, TLC exhaustive enumeration, trace validation of real runs',
+    design='6 C15'),
  'C18': dict(
     level='model_checking',
     text='Input.tla holds the field scanner (character automaton), the accept/reject/either classification per variable type and the '
